@@ -13,6 +13,8 @@ import Mathlib.Tactic.FieldSimp
 import Mathlib.Tactic.Ring
 import Mathlib.Tactic.IntervalCases
 
+set_option linter.unnecessarySeqFocus false
+
 namespace HitenModel.Props.C18
 open HitenModel HitenModel.C18 Gen.C18 RE
 
@@ -202,25 +204,81 @@ noncomputable def after (f : ℕ → RE) (ρ : ℕ → ℝ) : ℕ → ℝ := fun
 coordinate vector, every `mu`, `a`, and every `gamma ≠ 0`, `sgn ≠ 0` -/
 theorem collinear_s2l_l2s (ρ : ℕ → ℝ) (hg : ρ 6 ≠ 0) (hs : ρ 8 ≠ 0) (i : ℕ) (hi : i < 6) :
     eval (after l2sCol ρ) (s2lCol i) = ρ i := by
-  interval_cases i <;> simp [after, l2sCol, s2lCol, eval] <;> field_simp <;> ring
+  interval_cases i <;> (simp [after, l2sCol, s2lCol, eval] <;> (try field_simp) <;> (try ring))
 
 /-- `_local2synodic_collinear(_synodic2local_collinear(s)) = s` -/
 theorem collinear_l2s_s2l (ρ : ℕ → ℝ) (hg : ρ 6 ≠ 0) (hs : ρ 8 ≠ 0) (i : ℕ) (hi : i < 6) :
     eval (after s2lCol ρ) (l2sCol i) = ρ i := by
-  interval_cases i <;> simp [after, l2sCol, s2lCol, eval] <;> field_simp <;> ring
+  interval_cases i <;> (simp [after, l2sCol, s2lCol, eval] <;> (try field_simp) <;> (try ring))
 
 /-- **local_synodic_inverse** (triangular), both directions, all inputs -/
 theorem triangular_s2l_l2s (ρ : ℕ → ℝ) (i : ℕ) (hi : i < 6) : eval (after l2sTri ρ) (s2lTri i) = ρ i := by
-  interval_cases i <;> simp [after, l2sTri, s2lTri, eval] <;> ring
+  interval_cases i <;> (simp [after, l2sTri, s2lTri, eval] <;> (try field_simp) <;> (try ring))
 
 theorem triangular_l2s_s2l (ρ : ℕ → ℝ) (i : ℕ) (hi : i < 6) : eval (after s2lTri ρ) (l2sTri i) = ρ i := by
-  interval_cases i <;> simp [after, l2sTri, s2lTri, eval] <;> ring
+  interval_cases i <;> (simp [after, l2sTri, s2lTri, eval] <;> (try field_simp) <;> (try ring))
 
 /-- the only divisors in the collinear inverse map are `gamma` and `sgn·gamma` (well defined iff both are non-zero) -/
 theorem collinear_s2l_WD (ρ : ℕ → ℝ) (hg : ρ 6 ≠ 0) (hs : ρ 8 ≠ 0) (i : ℕ) (hi : i < 6) : WD ρ (s2lCol i) := by
   have : ρ 8 * ρ 6 ≠ 0 := mul_ne_zero hs hg
   interval_cases i
   all_goals simp [s2lCol, WD, eval, hg, this]
+
+/-! ### 7. the cleaning tolerance: conversions there and back, *with* both cleaning steps -/
+
+/-- `|c| ≤ tol` as the Boolean test `_polynomial_clean` applies -/
+noncomputable def smallC (tol : ℝ) : ℂ → Bool := fun c => decide (‖c‖ ≤ tol)
+
+/-- `_polynomial_clean(p, tol)` moves the value at any point by at most `tol·Σ_k |x^k|` -/
+theorem clean_moves_value_by_at_most_tol (tol : ℝ) (htol : 0 ≤ tol) (p : Poly ℂ) (x : ℕ → ℂ) :
+    ‖evalPoly x (cleanTerms (smallC tol) p) - evalPoly x p‖ ≤ tol * termScale x p := clean_bound tol htol x p
+
+/-- one conversion (substitute, merge, clean) agrees with the coordinate change up to the cleaning tolerance -/
+theorem conversion_agrees_with_coord_change_up_to_clean (tol : ℝ) (htol : 0 ≤ tol) (C : List (List ℂ)) (p : Poly ℂ)
+    (x : ℕ → ℂ) :
+    ‖evalPoly x (convertLin (smallC tol) C p) - evalPoly (applyMat C x) p‖
+      ≤ tol * termScale x (normalize (substLinear C p)) := by
+  have h := clean_bound tol htol x (normalize (substLinear C p))
+  rwa [evalPoly_normalize, substitute_spec] at h
+
+/-- **conversions registered in both directions are inverses of each other up to the cleaning tolerance**
+(generic form): convert with `A` (cleaning at `tol₁`), convert back with `B` (cleaning at `tol₂`), where the coordinate
+maps of `A` and `B` undo each other.  The value of the result at any point differs from the value of the original
+polynomial by at most `tol₂·Σ|x^k|` over the terms of the second substitution plus `tol₁·Σ|(Bx)^k|` over the terms of
+the first — nothing else. -/
+theorem two_way_conversion_up_to_clean (tol₁ tol₂ : ℝ) (h₁ : 0 ≤ tol₁) (h₂ : 0 ≤ tol₂) (A B : List (List ℂ))
+    (hinv : ∀ (x : ℕ → ℂ) (i : ℕ), i < 6 → applyMat A (applyMat B x) i = x i)
+    (p : Poly ℂ) (hp : ∀ t ∈ p, t.2.length ≤ 6) (x : ℕ → ℂ) :
+    ‖evalPoly x (convertLin (smallC tol₂) B (convertLin (smallC tol₁) A p)) - evalPoly x p‖
+      ≤ tol₂ * termScale x (normalize (substLinear B (convertLin (smallC tol₁) A p)))
+        + tol₁ * termScale (applyMat B x) (normalize (substLinear A p)) := by
+  have e1 := conversion_agrees_with_coord_change_up_to_clean tol₂ h₂ B (convertLin (smallC tol₁) A p) x
+  have e2 := conversion_agrees_with_coord_change_up_to_clean tol₁ h₁ A p (applyMat B x)
+  have e3 : evalPoly (applyMat A (applyMat B x)) p = evalPoly x p := evalPoly_congr _ _ 6 (hinv x) p hp
+  rw [e3] at e2
+  have split : evalPoly x (convertLin (smallC tol₂) B (convertLin (smallC tol₁) A p)) - evalPoly x p
+      = (evalPoly x (convertLin (smallC tol₂) B (convertLin (smallC tol₁) A p))
+          - evalPoly (applyMat B x) (convertLin (smallC tol₁) A p))
+        + (evalPoly (applyMat B x) (convertLin (smallC tol₁) A p) - evalPoly x p) := by ring
+  rw [split]
+  exact (norm_add_le _ _).trans (add_le_add e1 e2)
+
+/-- … instantiated for the complexification edges: for every inverse pair of recorded complexification operations
+the hypothesis of `two_way_conversion_up_to_clean` is a theorem -/
+theorem complexification_two_way_up_to_clean (a b : MatId) (A B : QMat) (hab : (Op.lin a).inverseOf (Op.lin b) = true)
+    (hA : matOf a = some A) (hB : matOf b = some B) (tol₁ tol₂ : ℝ) (h₁ : 0 ≤ tol₁) (h₂ : 0 ≤ tol₂)
+    (p : Poly ℂ) (hp : ∀ t ∈ p, t.2.length ≤ 6) (x : ℕ → ℂ) :
+    ‖evalPoly x (convertLin (smallC tol₂) B.toLists (convertLin (smallC tol₁) A.toLists p)) - evalPoly x p‖
+      ≤ tol₂ * termScale x (normalize (substLinear B.toLists (convertLin (smallC tol₁) A.toLists p)))
+        + tol₁ * termScale (applyMat B.toLists x) (normalize (substLinear A.toLists p)) := by
+  have h := M_Minv_inverse
+  refine two_way_conversion_up_to_clean tol₁ tol₂ h₁ h₂ _ _ ?_ p hp x
+  cases a <;> cases b <;> simp [Op.inverseOf, MatId.inverse, matOf] at hab hA hB
+  all_goals subst hA; subst hB
+  · exact applyMat_inverse M12 Minv12 h.1
+  · exact applyMat_inverse Minv12 M12 h.2.1
+  · exact applyMat_inverse M012 Minv012 h.2.2.1
+  · exact applyMat_inverse Minv012 M012 h.2.2.2
 
 /-! ### non-vacuity -/
 
